@@ -9,7 +9,8 @@ from ..cfg import cfg_of
 from ..flow import (guards, must_pass, Exploration, loop_slice, reaching_defs,
                     Deps)
 from .. import idioms as I
-from .c14 import Interp, UNK, _key_of, resolve_aliases, truth, deref
+from .c14 import (Interp, UNK, _key_of, resolve_aliases, truth, deref,
+                  Alias)
 
 WD   = ('raptor/worker_default.py', 'DefaultWorker')
 WK   = ('raptor/worker.py', 'Worker')
@@ -2480,6 +2481,42 @@ def _set_path(v, path, new):
     return UNK
 
 
+def _resolve_shared(v, env, depth=0):
+    """v with every element held by reference (Alias) read out"""
+    if isinstance(v, Alias):
+        k = deref(env, v.key)
+        w = env.get(k, UNK)
+        if isinstance(w, Alias) or depth > 4:
+            return UNK
+        return _resolve_shared(w, env, depth + 1)
+    if depth > 4:
+        return v
+    if isinstance(v, list):
+        return [_resolve_shared(x, env, depth + 1) for x in v]
+    if isinstance(v, tuple):
+        return tuple(_resolve_shared(x, env, depth + 1) for x in v)
+    if isinstance(v, dict):
+        return {k: _resolve_shared(x, env, depth + 1) for k, x in v.items()}
+    return v
+
+
+def _shared_targets(v, env, depth=0):
+    """variables whose containers v holds by reference"""
+    out = set()
+    if isinstance(v, Alias):
+        k = deref(env, v.key)
+        out.add(k)
+        if depth < 4:
+            out |= _shared_targets(env.get(k), env, depth + 1)
+    elif isinstance(v, (list, tuple)) and depth < 4:
+        for x in v:
+            out |= _shared_targets(x, env, depth + 1)
+    elif isinstance(v, dict) and depth < 4:
+        for x in v.values():
+            out |= _shared_targets(x, env, depth + 1)
+    return out
+
+
 class _DInterp(Interp):
     """value interpreter that also reads a description held as a dict through
     attribute access (`td.mode`, TypedDict style), evaluates str.startswith /
@@ -2489,6 +2526,7 @@ class _DInterp(Interp):
     between two lists, a local bound to such an element"""
 
     schema = ()
+    _shared = False        # some table holds containers of other variables
 
     def ev(self, f, e, env):
         if isinstance(e, ast.Attribute) and e.attr in self.schema:
@@ -2499,7 +2537,9 @@ class _DInterp(Interp):
                     return base.get(e.attr)
         v = Interp.ev(self, f, e, env)
         if isinstance(v, _Ref):
-            return _get_path(env.get(v.root, UNK), v.path)
+            v = _get_path(env.get(v.root, UNK), v.path)
+        if self._shared and isinstance(v, (Alias, list, dict, tuple)):
+            return _resolve_shared(v, env)
         return v
 
     def _cpath(self, f, e, env):
@@ -2520,6 +2560,13 @@ class _DInterp(Interp):
             kv = self.ev(f, e.slice, env)
             if kv is UNK or not isinstance(kv, (str, int, bool, type(None))):
                 return b[0], None
+            el = _get_path(env.get(b[0], UNK), b[1] + (kv,))
+            if isinstance(el, Alias):
+                # the element IS another variable's list / dict (a table
+                # built from existing containers): the effect goes there
+                k = deref(env, el.key)
+                return (k, ()) if isinstance(env.get(k), (list, dict)) \
+                    else (b[0], None)
             return b[0], b[1] + (kv,)
         if isinstance(e, ast.IfExp):
             t = truth(self.ev(f, e.test, env))
@@ -2540,56 +2587,209 @@ class _DInterp(Interp):
                 return [env2]
         return Interp.effects(self, f, node, edge, env, depth)
 
-    def _container_effect(self, f, node, a, env):
-        """environment after statement a if it appends to / binds a name to a
-        container reached through an expression; None: not that shape (the
-        generic treatment applies)"""
-        if isinstance(a, ast.Expr) and isinstance(a.value, ast.Call) and \
-                isinstance(a.value.func, ast.Attribute) and \
-                a.value.func.attr == 'append' and len(a.value.args) == 1 \
-                and not a.value.keywords:
-            recv = a.value.func.value
-            cp = self._cpath(f, recv, env)
-            if cp is None and isinstance(recv, ast.IfExp):
+    def _blur(self, env, root):
+        """nothing is known any more about variable root - nor about the
+        containers of other variables it holds by reference"""
+        for k in [root] + sorted(_shared_targets(env.get(root), env)):
+            self._kill(env, k, keep_self=False)
+            env[k] = UNK
+
+    def _grow(self, f, node, recv, items, env):
+        """environment after the list denoted (by reference) by recv received
+        items (a list of values, UNK: some); None: recv is a plain variable
+        or no container expression - the generic treatment applies"""
+        cp = self._cpath(f, recv, env)
+        if cp is None:
+            if isinstance(recv, ast.IfExp):
                 # one of two containers, the test cannot be evaluated
                 env = dict(env)
                 for br in (recv.body, recv.orelse):
                     bp = self._cpath(f, br, env)
                     if bp is not None:
-                        self._kill(env, bp[0], keep_self=False)
-                        env[bp[0]] = UNK
+                        self._blur(env, bp[0])
                 return env
-            if cp is None or (cp[1] == () and isinstance(recv, ast.Name)
-                              and not isinstance(env.get(recv.id), _Ref)):
-                return None
-            root, path = cp
-            env = dict(env)
-            cur = UNK if path is None else _get_path(env[root], path)
-            if not isinstance(cur, list):
-                # an element that cannot be told receives the item: nothing
-                # below the variable is known any more
-                self._kill(env, root, keep_self=False)
-                env[root] = UNK
+            if _key_of(recv) is None:
+                # some container reached through an expression this reading
+                # does not follow: whatever it mentions may have grown
+                env = dict(env)
+                for nm in sorted(_names(recv)):
+                    k = deref(env, nm)
+                    if isinstance(env.get(nm), _Ref):
+                        k = env[nm].root
+                    if isinstance(env.get(k), (list, dict)):
+                        self._blur(env, k)
                 return env
-            if all('@L%d' % h in env for h in node.loops):
-                new = cur + [self.ev(f, a.value.args[0], env)]
-            else:
-                new = UNK
-            env[root] = _set_path(env[root], path, new)
+            return None
+        if cp[1] == () and isinstance(recv, ast.Name) and \
+                not isinstance(env.get(recv.id), _Ref):
+            return None
+        root, path = cp
+        env = dict(env)
+        cur = UNK if path is None else _get_path(env[root], path)
+        if not isinstance(cur, list):
+            # an element that cannot be told receives the items: nothing
+            # below the variable is known any more
+            self._blur(env, root)
             return env
+        if isinstance(items, list) and \
+                all('@L%d' % h in env for h in node.loops):
+            new = cur + items
+        else:
+            new = UNK
+        env[root] = _set_path(env[root], path, new)
+        return env
+
+    def _shared_display(self, f, e, env):
+        """(value, referenced variables) of a dict / list / tuple display or
+        dict(k=v, ..) call some of whose elements ARE list / dict objects of
+        other variables (`{True: exe_tasks, False: raptor_tasks}`): those
+        elements are held as Alias(variable); None: no such element"""
+        if isinstance(e, ast.Dict):
+            keys, vals = e.keys, e.values
+        elif isinstance(e, (ast.List, ast.Tuple)):
+            keys, vals = None, e.elts
+        elif isinstance(e, ast.Call) and isinstance(e.func, ast.Name) and \
+                e.func.id == 'dict' and not e.args and e.keywords and \
+                'dict' not in env:
+            keys = [None if k.arg is None else ast.Constant(value=k.arg)
+                    for k in e.keywords]
+            vals = [k.value for k in e.keywords]
+        else:
+            return None
+        refs = [self.ref_of(f, x, env) for x in vals]
+        if not any(r is not None for r in refs):
+            return None
+        used = sorted({r for r in refs if r is not None})
+        items = [Alias(r) if r is not None else self.ev(f, x, env)
+                 for r, x in zip(refs, vals)]
+        if keys is None:
+            if any(isinstance(x, ast.Starred) for x in vals):
+                return UNK, used
+            return (tuple(items) if isinstance(e, ast.Tuple) else items), used
+        out = {}
+        for k, v in zip(keys, items):
+            kv = UNK if k is None else self.ev(f, k, env)
+            try:
+                if kv is UNK:
+                    return UNK, used
+                out[kv] = v
+            except TypeError:
+                return UNK, used
+        return out, used
+
+    def _container_effect(self, f, node, a, env):
+        """environment after statement a if it adds to / binds a name to /
+        builds a table of containers reached through an expression; None: not
+        that shape (the generic treatment applies)"""
+        if isinstance(a, ast.Expr) and isinstance(a.value, ast.Call) and \
+                isinstance(a.value.func, ast.Attribute) and \
+                a.value.func.attr in I.MUTATING:
+            c = a.value
+            recv = c.func.value
+            if c.func.attr in ('append', 'extend') and len(c.args) == 1 \
+                    and not c.keywords and \
+                    not isinstance(c.args[0], ast.Starred):
+                v = self.ev(f, c.args[0], env)
+                if c.func.attr == 'append':
+                    items = [v]
+                else:
+                    items = list(v) if isinstance(v, (list, tuple)) else UNK
+            else:
+                items = UNK
+            if c.func.attr != 'append' and _key_of(recv) is not None and \
+                    not (isinstance(recv, ast.Name) and
+                         isinstance(env.get(recv.id), _Ref)) and \
+                    not (self._shared and isinstance(recv, ast.Subscript)):
+                return None
+            return self._grow(f, node, recv, items, env)
+        if isinstance(a, ast.AugAssign) and isinstance(a.op, ast.Add):
+            # `bucket += [t]` / `routes[k] += [t]`: a list grows in place
+            t = a.target
+            via_ref = isinstance(t, ast.Name) and isinstance(
+                env.get(t.id), (_Ref, Alias))
+            if via_ref or (isinstance(t, ast.Subscript) and (
+                    _key_of(t) is None or self._shared)):
+                cp = self._cpath(f, t, env)
+                if cp is not None and cp[1] is not None and isinstance(
+                        _get_path(env.get(cp[0], UNK), cp[1]), list):
+                    v = self.ev(f, a.value, env)
+                    items = list(v) if isinstance(v, (list, tuple)) else UNK
+                    if isinstance(t, ast.Name) and isinstance(env.get(t.id),
+                                                              Alias):
+                        # (_grow leaves plain variables to the generic code)
+                        env = dict(env)
+                        k = cp[0]
+                        env[k] = env[k] + items if isinstance(items, list) \
+                            and all('@L%d' % h in env for h in node.loops) \
+                            else UNK
+                        return env
+                    return self._grow(f, node, t, items, env)
+                if cp is not None and isinstance(t, ast.Subscript):
+                    env = dict(env)
+                    self._blur(env, cp[0])
+                    return env
+            return None
         if isinstance(a, ast.Assign) and len(a.targets) == 1 and \
                 isinstance(a.targets[0], ast.Name) and \
                 isinstance(a.value, (ast.Subscript, ast.IfExp)):
             cp = self._cpath(f, a.value, env)
-            if cp is None or not cp[1]:
+            if cp is None or cp[1] is None:
                 return None
             root, path = cp
             if root == a.targets[0].id or \
                     not isinstance(_get_path(env[root], path), (list, dict)):
                 return None
+            if not path and not isinstance(a.value, ast.Subscript):
+                return None
             env = dict(env)
             self._kill(env, a.targets[0].id, keep_self=False)
-            env[a.targets[0].id] = _Ref(root, path)
+            env[a.targets[0].id] = _Ref(root, path) if path else Alias(root)
+            return env
+        if isinstance(a, ast.Assign) and len(a.targets) == 1 and \
+                isinstance(a.targets[0], ast.Name):
+            sd = self._shared_display(f, a.value, env)
+            if sd is None:
+                return None
+            v, used = sd
+            t = a.targets[0].id
+            env = dict(env)
+            if t in used:
+                for k in used:
+                    self._blur(env, k)
+                v = UNK
+            elif v is UNK:
+                for k in used:
+                    self._blur(env, k)
+            self._kill(env, t, keep_self=False)
+            env[t] = v
+            self._shared = True
+            return env
+        if isinstance(a, ast.Assign) and len(a.targets) == 1 and \
+                isinstance(a.targets[0], ast.Subscript) and \
+                not isinstance(a.targets[0].slice, ast.Slice) and \
+                isinstance(a.targets[0].value, ast.Name):
+            # `routes[key] = exe_tasks`: the table holds that very list
+            ref = self.ref_of(f, a.value, env)
+            t = a.targets[0]
+            tv = env.get(deref(env, t.value.id))
+            if ref is None or not isinstance(tv, dict) or \
+                    isinstance(env.get(t.value.id), _Ref):
+                return None
+            root = deref(env, t.value.id)
+            kv = self.ev(f, t.slice, env)
+            env = dict(env)
+            if root == ref or kv is UNK or \
+                    not isinstance(kv, (str, int, bool, type(None))):
+                self._blur(env, root)
+                self._blur(env, ref)
+                return env
+            for k in list(env):
+                if k.startswith(root + '['):
+                    del env[k]
+            d = dict(tv)
+            d[kv] = Alias(ref)
+            env[root] = d
+            self._shared = True
             return env
         return None
 
@@ -3514,6 +3714,125 @@ def _absent_guard(P, node, key, key_names):
     return out
 
 
+def _empty_list_here(P, v, nid):
+    """v, read at nid, is a new empty list: a display / list(), or a local
+    whose only definition is one and which is mentioned nowhere else"""
+    if _is_new_list(v):
+        return True
+    if isinstance(v, ast.Name) and v.id not in P.f.params:
+        ds = P.rdefs(v.id, nid)
+        if len(ds) == 1 and ds[0][1] is not None and \
+                ds[0][0].kind == 'stmt' and _is_new_list(ds[0][1]):
+            loads = [x for x in walk(P.f.node) if isinstance(x, ast.Name) and
+                     x.id == v.id and isinstance(x.ctx, ast.Load)]
+            if len(loads) == 1:
+                return True
+            raise AnalysisError('UNRECOGNISED-IDIOM %s: cannot tell whether '
+                                'the list `%s` is still empty where it is '
+                                'offered to the backlog' % (P.f.where, v.id))
+    return False
+
+
+def _accumulates_later(P, node, key, knames):
+    """some statement reachable from node adds to the cell BACKLOG[key]
+    (+=, extend / append on the cell) under the same binding of the key"""
+    reach = P.g.reachable(node.id)
+    for n in P.g.nodes:
+        if n.id == node.id or n.id not in reach or n.kind != 'stmt' or \
+                n.ast is None or isinstance(n.ast, (ast.FunctionDef,
+                                                    ast.AsyncFunctionDef,
+                                                    ast.ClassDef)):
+            continue
+        for kind, target, stmt in I.stores(n.ast):
+            c = P.canon(target, n.id)
+            if not (isinstance(c, ast.Subscript) and
+                    unparse(c.value) == BACKLOG and unparse(c.slice) == key):
+                continue
+            if (kind == 'aug' or (kind == 'mutate' and stmt.func.attr in (
+                    'extend', 'append', 'insert')) or kind == 'assign') and \
+                    P.same_binding(knames, node.id, n.id):
+                return True
+    return False
+
+
+def _backlog_call(P, rep, rid, m, node, call, hist):
+    """BACKLOG.setdefault(k, v) / BACKLOG.update({k: v}) as stores into the
+    cell of k: setdefault DROPS v when the cell exists, update OVERWRITES the
+    cell when it exists - either loses requests unless the key is known to be
+    absent (or v is a new empty list / holds the old content)"""
+    rep.saw(m)
+    txt = short(call, 60)
+    if call.keywords or any(isinstance(a, ast.Starred) for a in call.args):
+        raise AnalysisError('UNRECOGNISED-IDIOM %s: `%s`' % (m.where, txt))
+    if call.func.attr == 'setdefault':
+        if len(call.args) != 2:
+            raise AnalysisError('UNRECOGNISED-IDIOM %s: `%s`' % (m.where, txt))
+        pairs = [(call.args[0], call.args[1])]
+    else:
+        d = call.args[0] if len(call.args) == 1 else None
+        if not isinstance(d, ast.Dict) or not d.keys or \
+                any(k is None for k in d.keys):
+            raise AnalysisError('UNRECOGNISED-IDIOM %s: `%s` stores backlog '
+                                'cells whose keys cannot be told'
+                                % (m.where, txt))
+        pairs = list(zip(d.keys, d.values))
+    discarded = isinstance(node.ast, ast.Expr) and node.ast.value is call
+    for k, v in pairs:
+        kc = P.canon(k, node.id)
+        key = unparse(kc)
+        knames = [n_ for n_ in _names(kc) if n_ != 'self']
+        guard = _absent_guard(P, node, key, knames)
+        if call.func.attr == 'update':
+            if _old_cell_read(P, v, node.id, key, knames):
+                rep.ok(rid, m, '`%s` keeps the old content of the cell' % txt,
+                       m.loc(call))
+                continue
+            rep.check(guard == 'absent', rid, m,
+                      '`%s` creates the backlog cell of a key that has none'
+                      % txt, construct=call,
+                      message='%s: `%s` overwrites the backlog cell %s[%s] %s:'
+                      ' the backlog collects requests over many scheduling '
+                      'rounds and is drained only when the master registers '
+                      'its queue, so requests cached in an earlier round are '
+                      'dropped - never relayed, never failed (accumulate with '
+                      '+= instead)' % (
+                          m.qual, txt, BACKLOG, key,
+                          'on the path where the key is already present'
+                          if guard == 'present' else
+                          'without testing that the key is absent'),
+                      loc=m.loc(call), history=hist)
+            continue
+        if _empty_list_here(P, v, node.id):
+            rep.ok(rid, m, '`%s` creates an empty cell if there is none' % txt,
+                   m.loc(call))
+            continue
+        if guard == 'absent':
+            rep.ok(rid, m, '`%s` creates the backlog cell of a key that has '
+                   'none' % txt, m.loc(call))
+            continue
+        if not discarded or _accumulates_later(P, node, key, knames):
+            raise AnalysisError(
+                'UNRECOGNISED-IDIOM %s: `%s` offers requests to the backlog '
+                'cell as a default and the cell is used / extended '
+                'afterwards: cannot tell whether they are added when the '
+                'cell exists' % (m.where, txt))
+        rep.bad(rid, m, call,
+                '%s: `%s` stores the requests of this round only when the '
+                'backlog cell %s[%s] does not exist yet; when it exists '
+                '(requests cached in an earlier round - the backlog is '
+                'drained only when the master registers its queue) '
+                'setdefault keeps the old cell and the value offered is '
+                'discarded: the requests of this round are dropped - never '
+                'relayed, never failed (create the cell when absent and '
+                'accumulate with += otherwise)' % (m.qual, txt, BACKLOG, key),
+                m.loc(call),
+                history='master.0000 has not registered its queue yet; '
+                'scheduling round 1 brings req.0, req.1 for it (cached), '
+                'round 2 brings req.2: setdefault finds the cell and drops '
+                'req.2; register_raptor_queue relays only req.0, req.1 - '
+                'req.2 is never relayed, never fails, never completes')
+
+
 def r20_10(prog, rep, rid='R20.10'):
     rep.rule(rid, 'a store into a cell self._raptor_tasks[k] of the backlog '
              '(requests cached until their master registers; filled over '
@@ -3553,6 +3872,9 @@ def r20_10(prog, rep, rid='R20.10'):
                         rep.saw(m)
                         rep.ok(rid, m, '`%s` adds to the backlog cell'
                                % short(stmt, 60), m.loc(stmt))
+                    elif unparse(c) == BACKLOG and \
+                            stmt.func.attr in ('setdefault', 'update'):
+                        _backlog_call(P, rep, rid, m, node, stmt, hist)
                     continue
                 if kind not in ('assign', 'aug'):
                     continue
